@@ -66,6 +66,32 @@ theorem stream_exact (txs : List Tx) (rest : Bytes) (h : ∀ t ∈ txs, WFTx t) 
     ∃ bs, encTxs txs = .ok bs ∧ readMany decTx txs.length (bs ++ rest) = .ok (txs, rest) :=
   readMany_decTx txs rest h
 
+/-- distinct well-formed transactions have distinct encodings (so identifiers are unique up to
+    hash collisions): the encoder is injective on the domain -/
+theorem tx_enc_injective (a b : Tx) (ha : WFTx a) (hb : WFTx b) (bs : Bytes)
+    (hea : encTx a true = .ok bs) (heb : encTx b true = .ok bs) : a = b := by
+  obtain ⟨x, hx, hdx⟩ := decTx_encTx a [] ha
+  obtain ⟨y, hy, hdy⟩ := decTx_encTx b [] hb
+  rw [hea] at hx; injection hx with hx; subst hx
+  rw [heb] at hy; injection hy with hy; subst hy
+  rw [hdx] at hdy
+  injection hdy with h; injection h with h1 _
+
+/-- a decoded value determines the bytes consumed: two well-formed transactions that decode from
+    the same stream position are the same transaction and consume the same bytes -/
+theorem tx_prefix_unique (a b : Tx) (ha : WFTx a) (hb : WFTx b) (ea eb ra rb : Bytes)
+    (hea : encTx a true = .ok ea) (heb : encTx b true = .ok eb) (h : ea ++ ra = eb ++ rb) :
+    a = b ∧ ea = eb ∧ ra = rb := by
+  obtain ⟨x, hx, hdx⟩ := decTx_encTx a ra ha
+  obtain ⟨y, hy, hdy⟩ := decTx_encTx b rb hb
+  rw [hea] at hx; injection hx with hx; subst hx
+  rw [heb] at hy; injection hy with hy; subst hy
+  rw [h, hdy] at hdx
+  injection hdx with h2; injection h2 with h3 h4
+  subst h3; subst h4
+  refine ⟨rfl, ?_, rfl⟩
+  rw [hea] at heb; injection heb
+
 /-- the decoder never panics, on any input -/
 theorem tx_dec_no_panic (bs : Bytes) : decTx bs ≠ .panic := decTx_ne_panic bs
 
